@@ -233,13 +233,17 @@ class GaussianKDE(DensityEstimator):
         i = argmax(self(grid))
         lwr, upr = grid[max(i - 1, 0)], grid[min(i + 1, n_grid - 1)]
 
+        # search over the offset from the grid maximum: the convergence tolerance of
+        # the bounded minimiser scales with the size of its argument, which would
+        # otherwise limit the accuracy to ~1e-8 of the location of the data
+        x0 = grid[i]
         result = minimize_scalar(
-            lambda x: -self(x),
-            bounds=[lwr, upr],
+            lambda t: -self(x0 + t),
+            bounds=[lwr - x0, upr - x0],
             method="bounded",
             options={"xatol": 1e-6 * (upr - lwr)},
         )
-        return result.x
+        return x0 + result.x
 
     def moments(self):
         """
